@@ -1047,19 +1047,24 @@ class MelodyLoader:
             ``to_element`` live in the the same fragment, and whether the
             ``include_target_type`` parameter is set.
         """
-        to_uuids = set(to_element.keys()) & IDTYPES_RESOLVED
-        try:
-            to_uuid = next(iter(to_uuids))
-        except StopIteration:
-            raise ValueError(
-                "to_element does not have a known ID attribute"
-            ) from None
-        to_uuid = to_element.attrib[to_uuid]
-
         from_fragment, _ = self._find_fragment(from_element)
         to_fragment, _ = self._find_fragment(to_element)
         assert from_fragment
         assert to_fragment
+
+        # Only ID attributes that are indexed for the target's file type
+        # can be resolved again by `follow_link`.
+        to_idtypes = IDTYPES_PER_FILETYPE.get(to_fragment.suffix, frozenset())
+        to_uuid = next(
+            (
+                to_element.attrib[idtype]
+                for idtype in sorted(to_idtypes)
+                if idtype in to_element.attrib
+            ),
+            None,
+        )
+        if to_uuid is None:
+            raise ValueError("to_element does not have a known ID attribute")
 
         if from_fragment == to_fragment:
             return f"#{to_uuid}"
